@@ -547,9 +547,12 @@ class Body:
                 if ip is None:
                     return p
                 p = {"l": ip["l"], "p": list(ip["p"]) + p["p"]}
-            elif rv["k"] == "ref":
+            elif rv["k"] in ("ref", "rawptr"):
                 if p["p"] and p["p"][0] == "*":
                     p = {"l": rv["p"]["l"], "p": list(rv["p"]["p"]) + p["p"][1:]}
+                elif not p["p"]:
+                    # the pointer value itself: denote what it points to (used for lengths of slices behind raw pointers)
+                    p = {"l": rv["p"]["l"], "p": list(rv["p"]["p"])}
                 else:
                     return p
             else:
